@@ -6,6 +6,7 @@
   C11's subject and is re-validated on the real grouping for every generated order.)
 -/
 import DisjointImpls.Lemmas.Refine
+import DisjointImpls.Lemmas.GroupLemmas
 namespace DI
 
 /-- "some block applies" is invariant under permuting the blocks -/
@@ -50,5 +51,29 @@ theorem C05_dispatch_invariant (W : World) (G G' : List Family) (hG : GroupingWF
 theorem C05_selected_block_order_free (W : World) (G : List Family) (F : Family) (m : Member) (q : T)
     (_ : F ∈ G) (_ : m ∈ F.members) : genSel W F m q → applies W m.blk q :=
   gen_sub_spec W F m q
+
+/-- the first step of the grouping does not depend on the order of the blocks: for pairwise different block texts,
+    the buckets of a permutation have the same headers and, under each header, the same blocks, up to order -/
+theorem C05_buckets_order_free (bs bs' : List Blk) (hp : bs.Perm bs') (hnd : (bs.map (·.item)).Nodup) :
+    ((mkBuckets bs).map (·.1)).Perm ((mkBuckets bs').map (·.1)) ∧
+    ∀ id blks blks', (id, blks) ∈ mkBuckets bs → (id, blks') ∈ mkBuckets bs' → blks.Perm blks' :=
+  mkBuckets_perm hp hnd
+
+/-- what the buckets are, independently of any order: the bucket of a header holds exactly the blocks with that
+    header, and the headers are those of the blocks -/
+theorem C05_buckets_characterised (bs : List Blk) (hnd : (bs.map (·.item)).Nodup) :
+    (∀ bk ∈ mkBuckets bs, bk.2 = bs.filter (fun b => groupIdOf b.item == bk.1)) ∧
+    (∀ id, id ∈ (mkBuckets bs).map (·.1) ↔ ∃ b ∈ bs, groupIdOf b.item = id) ∧
+    ((mkBuckets bs).map (·.1)).Nodup :=
+  ⟨(mkBuckets_char bs hnd).1, (mkBuckets_char bs hnd).2, mkBuckets_ids_nodup bs⟩
+
+/-- non-vacuity: two blocks with different headers, in both orders -/
+example :
+    let b1 : Blk := ⟨.node "ItemImpl" [] [.node "A" [] [], .node "None" [] [], .node "None" [] [], .node "G" [] [],
+      .node "None" [] [], .node "S1" [] [], .node "List" [] []], []⟩
+    let b2 : Blk := ⟨.node "ItemImpl" [] [.node "A" [] [], .node "None" [] [], .node "None" [] [], .node "G" [] [],
+      .node "None" [] [], .node "S2" [] [], .node "List" [] []], []⟩
+    ([b1, b2].map (·.item)).Nodup ∧ (mkBuckets [b1, b2]).map (·.1) = [groupIdOf b1.item, groupIdOf b2.item] ∧
+    (mkBuckets [b2, b1]).map (·.1) = [groupIdOf b2.item, groupIdOf b1.item] := by decide
 
 end DI
